@@ -83,4 +83,6 @@ func Gen(run *vlib.Run, seed uint64, tier string) {
 	genMaxp(run, r.Fork("maxp"), tier)
 	genPost(run, r.Fork("post"), tier)
 	genOS2(run, r.Fork("os2"), tier)
+	genDerived(run, r.Fork("derived"), tier)
+	genVersion(run, r.Fork("version"), tier)
 }
